@@ -1039,7 +1039,9 @@ def run_program(c, matrix, Proxy, prog, O, batch, replay_extra=None):
             elif op == 'export':
                 if check_export(c, matrix, A, X, st, batch, fail, prog) is not True: break
         except Exception as e:
-            fail('matrix-op-raises:' + op, 'matrix operation %s raises %s: %s on valid operands' % (op, type(e).__name__, str(e)[:80]), st); break
+            zero_rows = X is not None and X.nr == 0 and op in ('pickle', 'export') and not isinstance(e, matrix.MatrixError)
+            fail('assemble:zero-rows-fails' if zero_rows else 'matrix-op-raises:' + op,
+                 'matrix operation %s raises %s: %s on valid operands' % (op, type(e).__name__, str(e)[:80]), st); break
     return nfail
 
 
@@ -1177,7 +1179,7 @@ def run(c):
     matrix.backend('numpy').__enter__() if hasattr(matrix.backend('numpy'), '__enter__') else None
     broken = c.build_and_audit()
     quick = c.tier == 'quick'
-    N = 300 if quick else 10000
+    N = 500 if quick else 30000
     if getattr(c, 'replay', None):
         return replay(c, matrix, numeric)
     batch = Batch()
@@ -1190,8 +1192,8 @@ def run(c):
         for ev in evals:
             ev()
         stream_csr_types(c, matrix)
-        stream_ctor(c, matrix, 10 if quick else 60)
-        stream_precon(c, matrix, 40 if quick else 600)
+        stream_ctor(c, matrix, 10 if quick else 100)
+        stream_precon(c, matrix, 40 if quick else 2000)
     for b in broken:
         c.broken_no_input('proof', b, dict(detail=b))
 
